@@ -9,6 +9,7 @@ package dkv
 // clients (keyed state C03, timers C10) rely on it through the `assumes` clauses.
 //@ type DB
 //@   guards mu: sstables
+//@   lockinv mu: self.sstables != nil
 //@   ghostfield live map[string]bool
 
 // Put/Delete: one new sequence number per operation, the same number goes to
@@ -31,14 +32,61 @@ package dkv
 //@   ensures db.wal == old(db.wal) && db.mtables == old(db.mtables) && db.wal.activeBuffer != nil && db.wal.latestSeqNum <= db.seqNum && !db.wal.sealedFlag
 //@   assumes forall(func(k string) bool { return has(db.live, k) == (has(old(db.live), k) && k != string(key)) })
 
-// ScanPrefix: exactly the live keys having the prefix, each once, ascending.
+// currentSSTables: the level list installed at the moment of the call.
+//@ func DB.currentSSTables
+//@   property C07 C03
+//@   modifies nothing
+//@   ensures result == db.sstables && result != nil
+
+// ScanPrefix, proved against its sources (C07): the memtables' and the current level list's
+// records with the prefix - puts and deletes - are merged so that per key the newest record
+// wins, wherever it is stored, and only then the deletes are dropped: the result holds, in
+// ascending key order, exactly the keys whose newest record is a put, with that record.
+// (The level list is the one current when the scan is created; C18 covers swaps.)
+// The abstract reading used by the clients (C03 keyed state, C10 timers) - exactly the live
+// keys of db.live - stays assumed: it needs the global invariant tying db.live to the sources.
+//@ define scanSorted(q) := forall(0, seqlen(q), func(ii_ int) bool { return forall(0, ii_, func(jj_ int) bool { return string(seqat(q, jj_).Key()) < string(seqat(q, ii_).Key()) }) })
+//@ define memScan(db, prefix, i) := db.mtables.tables[i].ScanPrefix(prefix)
+//@ define tblScan(db, prefix, errOut, i) := seqat(db.sstables.AllTablesForPrefix(prefix), i).ScanPrefix(prefix, errOut)
+//@ define notOlder(r, e) := string(e.Key()) == string(r.Key()) ==> r.SeqNum() >= e.SeqNum()
+//@ define newestOf(db, prefix, errOut, r) :=
+//@        forall(0, len(db.mtables.tables), func(ii_ int) bool { return forall(0, seqlen(memScan(db, prefix, ii_)), func(qq_ int) bool { return notOlder(r, seqat(memScan(db, prefix, ii_), qq_)) }) }) &&
+//@        forall(0, seqlen(db.sstables.AllTablesForPrefix(prefix)), func(ii_ int) bool { return forall(0, seqlen(tblScan(db, prefix, errOut, ii_)), func(qq_ int) bool { return notOlder(r, seqat(tblScan(db, prefix, errOut, ii_), qq_)) }) })
+//@ define hasKey(res, e) := exists(0, seqlen(res), func(pp_ int) bool { return string(seqat(res, pp_).Key()) == string(e.Key()) })
 //@ func DB.ScanPrefix
 //@   property C07 C03 C10
-//@   trusted
+//@   requires db.mtables != nil
 //@   modifies nothing
-//@   ensures forall(0, seqlen(result), func(i int) bool { return seqat(result, i) != nil && has(db.live, string(seqat(result, i).Key())) && hasprefix(seqat(result, i).Key(), prefix) })
-//@   ensures forall(0, seqlen(result), func(i int) bool { return forall(0, i, func(j int) bool { return string(seqat(result, j).Key()) < string(seqat(result, i).Key()) }) })
-//@   ensures forall(func(k string) bool { return has(db.live, k) && hasprefix(k, prefix) ==> exists(0, seqlen(result), func(i int) bool { return string(seqat(result, i).Key()) == k }) })
+//@   ensures@A scanSorted(result)
+//@   ensures@A forall(0, seqlen(result), func(p int) bool { return !seqat(result, p).IsDelete() && newestOf(db, prefix, errOut, seqat(result, p)) })
+//@   ensures@C seqNumsNameOps(db, prefix, errOut) ==> forall(0, len(db.mtables.tables), func(i int) bool { return forall(0, seqlen(memScan(db, prefix, i)), func(q int) bool {
+//@           return !seqat(memScan(db, prefix, i), q).IsDelete() && newestOf(db, prefix, errOut, seqat(memScan(db, prefix, i), q)) ==> hasKey(result, seqat(memScan(db, prefix, i), q)) }) })
+//@   ensures@C seqNumsNameOps(db, prefix, errOut) ==> forall(0, seqlen(db.sstables.AllTablesForPrefix(prefix)), func(i int) bool { return forall(0, seqlen(tblScan(db, prefix, errOut, i)), func(q int) bool {
+//@           return !seqat(tblScan(db, prefix, errOut, i), q).IsDelete() && newestOf(db, prefix, errOut, seqat(tblScan(db, prefix, errOut, i), q)) ==> hasKey(result, seqat(tblScan(db, prefix, errOut, i), q)) }) })
+//@   assumes forall(0, seqlen(result), func(i int) bool { return seqat(result, i) != nil && has(db.live, string(seqat(result, i).Key())) && hasprefix(seqat(result, i).Key(), prefix) })
+//@   assumes forall(0, seqlen(result), func(i int) bool { return forall(0, i, func(j int) bool { return string(seqat(result, j).Key()) < string(seqat(result, i).Key()) }) })
+//@   assumes forall(func(k string) bool { return has(db.live, k) && hasprefix(k, prefix) ==> exists(0, seqlen(result), func(i int) bool { return string(seqat(result, i).Key()) == k }) })
+//@   loop 0:
+//@     invariant@A len(out_) <= idx_ && forall(0, len(out_), func(p int) bool { return !out_[p].IsDelete() && exists(0, idx_, idx_-1, func(r int) bool { return out_[p] == seqat(coll_, r) &&
+//@               forall(0, p, func(p2 int) bool { return exists(0, r, func(r2 int) bool { return out_[p2] == seqat(coll_, r2) }) }) }) })
+//@     invariant@C forall(0, idx_, func(r int) bool { return !seqat(coll_, r).IsDelete() ==> exists(0, len(out_), len(out_)-1, func(p int) bool { return out_[p] == seqat(coll_, r) }) })
+//@     invariant scanSorted(coll_)
+//@     invariant forall(0, len(db.mtables.tables), func(i int) bool { return forall(0, seqlen(memScan(db, prefix, i)), func(q int) bool { return newerIn(coll_, seqat(memScan(db, prefix, i), q)) }) })
+//@     invariant forall(0, seqlen(db.sstables.AllTablesForPrefix(prefix)), func(i int) bool { return forall(0, seqlen(tblScan(db, prefix, errOut, i)), func(q int) bool { return newerIn(coll_, seqat(tblScan(db, prefix, errOut, i), q)) }) })
+//@     invariant@C forall(0, seqlen(coll_), func(r int) bool { return isRaw(db, prefix, errOut, seqat(coll_, r)) })
+// A sequence number names one operation: two records with the same key and sequence number
+// (the copies of an operation in a memtable and, after its flush, in a table) agree on being a delete.
+//@ define sameOp(a, b) := string(a.Key()) == string(b.Key()) && a.SeqNum() == b.SeqNum() ==> a.IsDelete() == b.IsDelete()
+//@ define sameOpEverywhere(db, prefix, errOut, a) :=
+//@        forall(0, len(db.mtables.tables), func(i2_ int) bool { return forall(0, seqlen(memScan(db, prefix, i2_)), func(q2_ int) bool { return sameOp(a, seqat(memScan(db, prefix, i2_), q2_)) }) }) &&
+//@        forall(0, seqlen(db.sstables.AllTablesForPrefix(prefix)), func(i2_ int) bool { return forall(0, seqlen(tblScan(db, prefix, errOut, i2_)), func(q2_ int) bool { return sameOp(a, seqat(tblScan(db, prefix, errOut, i2_), q2_)) }) })
+//@ define seqNumsNameOps(db, prefix, errOut) :=
+//@        forall(0, len(db.mtables.tables), func(i1_ int) bool { return forall(0, seqlen(memScan(db, prefix, i1_)), func(q1_ int) bool { return sameOpEverywhere(db, prefix, errOut, seqat(memScan(db, prefix, i1_), q1_)) }) }) &&
+//@        forall(0, seqlen(db.sstables.AllTablesForPrefix(prefix)), func(i1_ int) bool { return forall(0, seqlen(tblScan(db, prefix, errOut, i1_)), func(q1_ int) bool { return sameOpEverywhere(db, prefix, errOut, seqat(tblScan(db, prefix, errOut, i1_), q1_)) }) })
+//@ define newerIn(res, e) := exists(0, seqlen(res), func(pp_ int) bool { return string(seqat(res, pp_).Key()) == string(e.Key()) && seqat(res, pp_).SeqNum() >= e.SeqNum() })
+//@ define isRaw(db, prefix, errOut, x) :=
+//@        (exists(0, len(db.mtables.tables), func(ii_ int) bool { return exists(0, seqlen(memScan(db, prefix, ii_)), func(qq_ int) bool { return seqat(memScan(db, prefix, ii_), qq_) == x }) }) ||
+//@         exists(0, seqlen(db.sstables.AllTablesForPrefix(prefix)), func(ii_ int) bool { return exists(0, seqlen(tblScan(db, prefix, errOut, ii_)), func(qq_ int) bool { return seqat(tblScan(db, prefix, errOut, ii_), qq_) == x }) }))
 
 // NeedsTable answers for every retained checkpoint; UpdateRetainedCheckpoints
 // narrows the retained set first and saves afterwards (WAL files of dropped
